@@ -50,12 +50,12 @@ def incflags():
 CLANG_BASE = ['clang++-14', '-std=c++14', '-ffp-contract=off', '-fno-vectorize', '-fno-slp-vectorize', '-fno-unroll-loops',
               '-fno-access-control', '-DNDEBUG', '-S', '-emit-llvm', '-w']
 
-def compile_ir(src, defines=(), opt='-O1', tag=''):
+def compile_ir(src, defines=(), opt='-O1', tag='', flags=()):
     """src: path of a .cpp (a wrapper in /verif/wrappers or a file of /repo/src).  returns IR text"""
     sc = scratch()
-    h = hashlib.md5((src + repr(defines) + opt + tag).encode()).hexdigest()[:10]
+    h = hashlib.md5((src + repr(defines) + opt + tag + repr(tuple(flags))).encode()).hexdigest()[:10]
     out = os.path.join(sc, os.path.basename(src).replace('.cpp', '') + '-' + h + '.ll')
-    cmd = CLANG_BASE + [opt] + incflags() + ['-D' + d for d in defines] + [src, '-o', out]
+    cmd = CLANG_BASE + [opt] + list(flags) + incflags() + ['-D' + d for d in defines] + [src, '-o', out]
     if opt == '-O0':
         cmd = CLANG_BASE + ['-O0', '-Xclang', '-disable-O0-optnone'] + incflags() + ['-D' + d for d in defines] + [src, '-o', out + '.0']
         r = subprocess.run(cmd, capture_output=True, text=True)
